@@ -209,8 +209,7 @@ FillWithinCapacity == written <= Cap /\ "underflow" \notin flags
 \* BufWriter never has to flush on its own in the middle of a line
 NoAutoFlush == "autoflush" \notin flags
 \* the two fill counters agree whenever no call is in progress
-CountersAgree == pc = "idle" =>
-                   (Len(buf) = written \/ (buf = <<>> /\ written = Cap) \/ nfault > 0)
+CountersAgree == pc = "idle" => (Len(buf) = written \/ (buf = <<>> /\ written = Cap))
 \* what the monitor believes is pending is exactly what the BufWriter holds
 PendIsBuffer == pc \in {"idle"} => P!Lines(mon.pend, Term) = buf
 
